@@ -85,7 +85,8 @@ func c18ConfigGen() *rapid.Generator[c18Config] {
 				c.IPReject[net.ParseIP(a).String()] = true
 			}
 		}
-		c.Types = rapid.SampledFrom([][]CandidateType{{CandidateTypeHost}, {CandidateTypeHost}, {CandidateTypeHost, CandidateTypeServerReflexive}, {CandidateTypeServerReflexive}}).Draw(t, "types")
+		c.Types = rapid.SampledFrom([][]CandidateType{{CandidateTypeHost}, {CandidateTypeHost}, {CandidateTypeHost, CandidateTypeServerReflexive}, {CandidateTypeServerReflexive},
+			{CandidateTypeHost, CandidateTypeRelay}, {CandidateTypeRelay}}).Draw(t, "types")
 		switch rapid.IntRange(0, 4).Draw(t, "netTypes") {
 		case 0: // not configured at all: documented as "all"
 		case 1:
@@ -222,8 +223,15 @@ func newC18World(cfg c18Config) (*c18World, error) {
 	if cfg.Loopback {
 		opts = append(opts, WithIncludeLoopback())
 	}
+	var urls []*stun.URI
 	if hasType(cfg.Types, CandidateTypeServerReflexive) {
-		opts = append(opts, WithUrls([]*stun.URI{{Scheme: stun.SchemeTypeSTUN, Host: "198.51.100.1", Port: 3478, Proto: stun.ProtoTypeUDP}}))
+		urls = append(urls, &stun.URI{Scheme: stun.SchemeTypeSTUN, Host: "198.51.100.1", Port: 3478, Proto: stun.ProtoTypeUDP})
+	}
+	if hasType(cfg.Types, CandidateTypeRelay) {
+		urls = append(urls, &stun.URI{Scheme: stun.SchemeTypeTURN, Host: "198.51.100.2", Port: 3478, Proto: stun.ProtoTypeUDP, Username: "u", Password: "p"})
+	}
+	if len(urls) > 0 {
+		opts = append(opts, WithUrls(urls))
 	}
 	if cfg.SrflxMapped > 0 {
 		var ext []string
@@ -268,9 +276,7 @@ func newC18World(cfg c18Config) (*c18World, error) {
 				return !cfg.IPReject[a.Unmap().String()]
 			}
 		}
-		if hasType(cfg.Types, CandidateTypeServerReflexive) {
-			ac.Urls = []*stun.URI{{Scheme: stun.SchemeTypeSTUN, Host: "198.51.100.1", Port: 3478, Proto: stun.ProtoTypeUDP}}
-		}
+		ac.Urls = urls
 		if w.udpMux != nil {
 			ac.UDPMux = w.udpMux
 		}
@@ -284,6 +290,7 @@ func newC18World(cfg c18Config) (*c18World, error) {
 	if err != nil {
 		return nil, err
 	}
+	a.turnClientFactory = w.fn.turnFactory
 	if cfg.MDNS {
 		// gather mode without a multicast socket: set in-package after construction
 		_ = a.loop.Run(a.loop, func(context.Context) {
@@ -580,8 +587,13 @@ func TestVerif_C18_Gather(t *testing.T) {
 				if _, ok := eligible[s.local.Addr().String()]; !ok {
 					fail("C18/sound/socket-on-ineligible-address", "the agent bound %s (eligible: %v)", s.local, eligible)
 				}
+			} else if (len(cfg.IfaceReject) > 0 || len(cfg.IPReject) > 0) && (s.tag == "(ListenPacket)" || cfg.SrflxMapped == 0) {
+				// (the rule-mapped srflx gatherer listens on the wildcard address by design and is left out)
+				// with an interface or IP filter configured the reflexive / relay gatherers bind the accepted
+				// addresses one by one; a wildcard socket would sit on the refused ones as well
+				fail("C18/sound/wildcard-socket-despite-filter", "the agent bound the wildcard address %s although an interface/IP filter is configured (iface filter %v, IP filter %v)", s.local, cfg.IfaceReject, cfg.IPReject)
 			}
-			if cfg.PortMin != 0 && s.local.Port() < cfg.PortMin || cfg.PortMax != 0 && s.local.Port() > cfg.PortMax {
+			if s.tag != "(ListenPacket)" && (cfg.PortMin != 0 && s.local.Port() < cfg.PortMin || cfg.PortMax != 0 && s.local.Port() > cfg.PortMax) {
 				fail("C18/sound/port-out-of-range", "the agent bound port %d outside %d-%d", s.local.Port(), cfg.PortMin, cfg.PortMax)
 			}
 		}
